@@ -42,7 +42,9 @@ def o_status(h):
     if not ep.status_replies:
         return [('status-no-reply', 'no reply to the status query')]
     js = json.loads(ep.status_replies[-1].decode())
-    want = [(s.my_spi.hex(), bytes(s.peer_spi).hex(), bool(s.is_initiator), s.state.name, len(s.child_sas)) for s in ep.sas()]
+    # the reply describes the table at the moment of the query, i.e. before the timer sweeps of the same loop iteration
+    pre = h.pre[ep.name]['sas']
+    want = [(d['my_spi'], d['peer_spi'], d['init'], CP.ST[d['state']], len(d['children'])) for d in pre]
     got = [(d['my_spi'], d['peer_spi'], d['is_initiator'], d['state'], len(d['child_sas'])) for d in js]
     if want != got:
         out.append(('status-differs', 'status query reports %s, table holds %s' % (got, want)))
@@ -132,7 +134,7 @@ def run(ctx):
         if ctx.rng.random() < 0.3:
             h.op('acquire', 'B' if h.w.A.sas() and h.w.A.sas()[0].is_initiator else 'A', 0)     # simultaneous initiation
 
-    S.campaign(ctx, res, ORACLES, ctx.scale(20, 300), ctx.scale(45, 90), variants=VARIANTS, dup=0.3, prepare=prepare,
+    S.campaign(ctx, res, ORACLES, ctx.scale(80, 1000), ctx.scale(45, 90), variants=VARIANTS, dup=0.3, prepare=prepare,
                per_history=spi_games)
     directed_rekey_dups(ctx, res)
     return res
